@@ -24,7 +24,7 @@ RULE = ("parameter points: exponential a in (0.01,5], poisson mean in (0.05,30] 
 ASSUMPTIONS = ["oracle: 50-digit decimal closed forms; zeta/polylog by direct summation + Euler-Maclaurin tail",
                "tolerance for power laws = 1.5 * (mass of all series terms below 1e-6) / exact normaliser + 1e-12; closed forms 1e-12 relative",
                "Poisson evaluated for k <= 120 only (float overflow of k! beyond 170 is outside what is asserted)"]
-HEADLINE = ["points", "pointwise_decimal_checks", "pointwise_float_checks", "normalisation_checks", "exponential", "poisson", "power_law", "scale_free_cut_off", "history_callables", "history_evaluations", "factory_calls_with_keywords", "far_tail_evaluations", "typed_degree_checks"]
+HEADLINE = ["points", "pointwise_decimal_checks", "pointwise_float_checks", "normalisation_checks", "exponential", "poisson", "power_law", "scale_free_cut_off", "history_callables", "history_evaluations", "factory_calls_with_keywords", "far_tail_evaluations", "typed_degree_checks", "vector_calls", "vector_entries_checked", "vector_calls_refused"]
 REQUIRED = {t: {"exponential": 5, "poisson": 5, "power_law": 5, "scale_free_cut_off": 5, "normalisation_checks": 20, "history_evaluations": 200}
             for t in ("quick", "thorough")}
 TOL_SERIES = 1e-6
@@ -312,6 +312,51 @@ def typed_degrees(res, dist, params):
                 return
 
 
+def vector_degrees(res, dist, params):
+    """degrees handed over as ONE numpy array (p(np.arange(kmax)) is how a pmf is tabulated): where the function accepts an array at all
+    (a refusal is only counted), the entry of every degree IN THE SUPPORT must be the value p(k) has for that degree alone - whatever else
+    is in the array, including a degree outside the support at the front, in the middle or at the end (its own entry is not looked at)"""
+    import warnings
+    import numpy as np
+    p = make(res, dist, params, "positional")
+    lo = 0 if dist in ("exponential", "poisson") else 1
+    hi = 40
+    arrays = [("support ascending", np.arange(lo, hi)), ("support descending", np.arange(lo, hi)[::-1].copy()),
+              ("degree below the support first", np.arange(lo - 1, hi)), ("degree below the support last", np.append(np.arange(lo, hi), lo - 1)),
+              ("degree below the support in the middle", np.array([lo + 3, lo + 1, lo - 1, lo, lo + 7])),
+              ("uint8 degrees", np.arange(lo, hi, dtype=np.uint8)), ("float-typed integral degrees", np.arange(lo - 1, hi).astype(float)),
+              ("a single degree", np.array([lo + 2])), ("two-dimensional", np.arange(lo, lo + 12).reshape(3, 4))]
+    for label, arr in arrays:
+        if lo == 0 and arr.min() < 0 and dist == "poisson":
+            continue
+        try:
+            with warnings.catch_warnings():
+                warnings.simplefilter("ignore")
+                with np.errstate(all="ignore"):
+                    out = p(arr.copy())
+            out = np.asarray(out)
+        except Exception:      # noqa: BLE001 - arrays are not a documented input form; refusing them is fine
+            res.count("vector_calls_refused")
+            continue
+        if out.shape != arr.shape:
+            res.count("vector_calls_answered_with_another_shape")
+            continue
+        res.count("vector_calls")
+        for k, got in zip(arr.ravel().tolist(), out.ravel().tolist()):
+            if k < lo:
+                continue
+            want = float(sut(f"{dist}{tuple(params)}({int(k)})", p, int(k)))
+            res.count("vector_entries_checked")
+            try:
+                ok = abs(float(got) - want) <= 1e-9 * abs(want) + 1e-300
+            except Exception:      # noqa: BLE001
+                ok = False
+            if not ok:
+                res.violate("entry-of-an-in-support-degree-in-a-vector-call-differs-from-the-value-for-that-degree", dist=dist, params=params, array=label,
+                            degrees=arr.ravel().tolist()[:12], k=k, got=repr(got), value_for_that_degree_alone=want)
+                return
+
+
 def run_case(case):
     res = Result()
     if case["dist"] == "history":
@@ -323,6 +368,8 @@ def run_case(case):
     check_point(res, case["dist"], case["params"])
     if res.verdict == "held":
         typed_degrees(res, case["dist"], case["params"])
+    if res.verdict == "held":
+        vector_degrees(res, case["dist"], case["params"])
     res.nontrivial = True
     res.digest = digest([case["dist"], case["params"]])
     res.sample = {"dist": case["dist"], "params": case["params"]}
